@@ -180,6 +180,25 @@ def run(ctx):
                     camp.sh.session("C14.verifies", [iv, ip])
                     nt += 1
             camp.sh.maybe_flush()
+        # a covered region that ends a fixed distance before the end of its enclosing region (the digest sits behind it), in regions at non-zero offsets
+        for h, dl in (("crc32", 4), ("sum8", 1), ("sha256_i64", 8)):
+            core = A.Struct(A.Renamed("fields", A.RawCopy(A.OffsettedEnd(-dl, A.GreedyBytes))), A.Renamed("crc", A.Checksum(digest_field(rng, h), h, A.T("fields", "data"))))
+            for prog, wrapv in ((A.Prefixed(A.Alias("Int16ub"), core), lambda c: c), (A.Struct(A.Renamed("h", A.Bytes(3)), A.Renamed("b", A.Prefixed(A.Alias("Byte"), core)), A.Renamed("t", A.Alias("Byte"))), lambda c: {"h": b"abc", "b": c, "t": 9}),
+                                (A.Struct(A.Renamed("h", A.Alias("Byte")), A.Renamed("b", A.FixedSized(5 + dl, core))), lambda c: {"h": 1, "b": c})):
+                con = campaign.realizable(prog)
+                if con is None:
+                    continue
+                for payload in (b"hello", b"\x00\x01\x02\x03\x04"):
+                    A.prime_hashes(prog, [payload])
+                    ib, b = camp.build(prog, con, wrapv({"fields": {"value": payload}}), b"", {})
+                    if b["res"]["ok"]:
+                        out = bytes(b["res"]["v"]["b"])
+                        ip, p = camp.parse(prog, con, out, 0, {})
+                        camp.sh.session("C14.verifies", [ib, ip])
+                        st = 2
+                        camp.parse(prog, con, b"\xee" * st + out, st, {})
+                        nt += 1
+            camp.sh.maybe_flush()
         # spec -> code: every session TLC explores on the RawCopy part of the model's universe (machine clauses checked on the design there)
         uprogs, ukw, sessions, _ = speccode.explore(ctx, focus="C14", part=speccode.part_of(ctx, 8 if quick else 6))
         nt += speccode.drive(camp, uprogs, ukw, sessions)
